@@ -210,7 +210,8 @@ class DriftCorrection(AutoSerialize):
         self.number_knots = number_knots
 
         # Derived data
-        self.scan_direction = np.deg2rad(self.scan_direction_degrees)
+        # float64 radians whatever the dtype of the angle array (deg2rad of an int8/uint8 array is float16)
+        self.scan_direction = np.deg2rad(np.asarray(self.scan_direction_degrees, dtype=np.float64))
         self.scan_fast = np.stack(
             [
                 np.sin(-self.scan_direction),
